@@ -154,6 +154,26 @@ Proof.
     + inversion H; subst. exists []. rewrite app_nil_r. auto.
 Qed.
 
+Lemma obj_ok_with_exit w x i b : obj_ok w x i -> obj_ok w (with_exit b x) i.
+Proof. intros (H1 & H2 & H3 & H4 & H5). unfold obj_ok; cbn [with_exit opid ostart ogone oreused ohash ident]. splits; auto; lia. Qed.
+
+Lemma gen_loop_objs K ls : forall os pm ls1 os1 pm1 r,
+  gen_loop K ls os pm = (ls1, os1, pm1, r) ->
+  exists news, os1 = os ++ news /\ Forall (fun y => exists p, new_obj K p = Val y) news.
+Proof.
+  induction ls as [|[p c] ls IH]; intros os pm ls1 os1 pm1 r H; cbn [gen_loop] in H.
+  - inversion H; subst. exists []. rewrite app_nil_r. auto.
+  - destruct (match c with
+              | Some i => if match nth_error os i with Some x => oreused x | None => false end then None else Some i
+              | None => None end).
+    + inversion H; subst. exists []. rewrite app_nil_r. auto.
+    + destruct (new_obj K p) as [y|e|] eqn:N.
+      * inversion H; subst. exists [y]. split; auto. constructor; eauto.
+      * destruct e; try (inversion H; subst; exists []; rewrite app_nil_r; split; [reflexivity|constructor]).
+        eauto.
+      * inversion H; subst. exists []. rewrite app_nil_r. auto.
+Qed.
+
 Lemma obj_ok_with_shot w x i n p t : obj_ok w x i -> obj_ok w (with_shot n p t x) i.
 Proof. intros (H1 & H2 & H3 & H4 & H5). unfold obj_ok; cbn [with_shot opid ostart ogone oreused ohash ident]. splits; auto; lia. Qed.
 
@@ -242,7 +262,7 @@ Proof.
                            Forall (fresh w) news).
   { intros m o x1 x i Ex Ei O1 E. exists (upd_nth o x1 (objs (ms w))), []. rewrite app_nil_r.
     splits; auto. eapply upd_objs_ok; eauto. }
-  destruct c as [pid|pid|o|o s|o|o|o|o|o|a b|a b|o s|o|o| |]; cbn [mcall] in H.
+  destruct c as [pid|pid|o|o s|o|o|o|o|o|a b|a b|o s|o|o| | |o| |g]; cbn [mcall] in H.
   - (* New *)
     destruct (new_obj (view_of w) pid) as [y|e|] eqn:N; inversion H; subst; auto.
     exists (objs (ms w)), [y]. cbn [with_objs objs]. splits; auto. constructor; [left; eauto|constructor].
@@ -331,6 +351,30 @@ Proof.
       apply iter_loop_objs in L as [news [E Fn]]. inversion H; subst. cbn [objs].
       exists (objs (ms w)), news. splits; auto.
       eapply Forall_impl; [|exact Fn]. intros y Hy. left. exact Hy.
+  - (* Wait *)
+    destruct (nth_error (objs (ms w)) o) as [x|] eqn:Ex; [|inversion H; subst; auto].
+    destruct (Forall2_nth_l _ _ _ _ _ F Ex) as (i & Ei & O).
+    unfold do_wait in H. destruct (oexit x); [|destruct (kexists (view_of w) (opid x))]; inversion H; subst.
+    + apply (Upd _ o x x i); auto.
+    + apply (Upd _ o x x i); auto.
+    + apply (Upd _ o (with_exit true x) x i); auto; apply obj_ok_with_exit; auto.
+  - (* IterStart *)
+    inversion H; subst. apply Same. reflexivity.
+  - (* IterNext *)
+    unfold iter_next in H. destruct (nth_error (gens (ms w)) g) as [ge|]; [|inversion H; subst; auto].
+    destruct (g_done ge); [inversion H; subst; auto|].
+    match type of H with context [match ?st with Some _ => _ | None => _ end] => destruct st as [[[m0 ls] pm]|] eqn:St end.
+    + assert (Eo : objs m0 = objs (ms w)).
+      { destruct (g_started ge); [inversion St; subst; reflexivity|].
+        destruct (sort_uniq (kv_pids (view_of w))); [discriminate|]. inversion St; subst. reflexivity. }
+      destruct (gen_loop (view_of w) ls (objs m0) pm) as [[[ls1 os1] pm1] r1] eqn:L.
+      apply gen_loop_objs in L as [news [E Fn]]. rewrite Eo in E.
+      assert (G : forall m, objs m = os1 ->
+              exists upd news0, objs m = upd ++ news0 /\ Forall2 (obj_ok w) upd (ginc w) /\ Forall (fresh w) news0).
+      { intros m Em. exists (objs (ms w)), news. rewrite Em. splits; auto.
+        eapply Forall_impl; [|exact Fn]. intros y Hy. left. exact Hy. }
+      destruct r1 as [[i|]|e|]; inversion H; subst; apply G; reflexivity.
+    + inversion H; subst. apply Same. reflexivity.
 Qed.
 
 Lemma cstep_eq w c :
